@@ -1,5 +1,5 @@
 # C02 - a clean e2fsck verdict implies a consistent filesystem      (campaign shared with C01)
-import json, os, re, struct, subprocess, hashlib, shutil, concurrent.futures
+import re, json, os, re, struct, subprocess, hashlib, shutil, concurrent.futures
 import e2v, extfmt, corrupt
 from extfmt import Fs, FormatError
 
@@ -72,6 +72,30 @@ def uninit_shadow(path):
 
 def only_shadow(path, cons):
     return bool(cons) and isinstance(cons, list) and set(cons) <= uninit_shadow(path)
+
+
+def only_special_acl(path, cons):
+    """is every clause of the independent reading explained by one thing: a special inode (the orphan file or a reserved
+    inode - nothing a directory entry leads to) whose i_file_acl lies outside the filesystem?"""
+    if not cons or not isinstance(cons, list):
+        return False
+    try:
+        fs = Fs(path)
+        orphan = struct.unpack_from("<I", fs.sb_raw, 0x280)[0]
+        special = {i for i in range(1, fs.first_ino) if i != 2} | ({orphan} if orphan else set())
+        hit = set()
+        for c in cons:
+            m = re.match(r"range: inode (\d+) xattr block (\d+) invalid$", c) or re.match(r"iblocks: inode (\d+) ", c)
+            if not m or int(m.group(1)) not in special:
+                return False
+            hit.add(int(m.group(1)))
+        for i in hit:
+            a = fs.inode(i)["file_acl"]
+            if fs.first_data_block <= a < fs.blocks_count:
+                return False
+        return bool(hit)
+    except Exception:
+        return False
 
 
 def journal_crosslinked(path):
@@ -225,12 +249,24 @@ def one_case(src, idx, seed, tier, keep=False):
         name, opts, size = [c for c in corrupt.IMG_CONFIGS if c[0] == "ext4_metabg48"][0]
         base = corrupt.build_image(src, WORK, name, opts, size, 1)
         desc = uninit_bit_case(src, base, img)
+    elif idx == nd + 4 + 2 * len(corrupt.PAIRS) + 4 + len(corrupt.ORPHAN_VARIANTS) + 5:
+        # the listed known finding: i_file_acl of the orphan file inode beyond the end of the filesystem
+        name, opts, size = [c for c in corrupt.IMG_CONFIGS if c[0] == "ext4_1k"][0]
+        base = corrupt.build_image(src, WORK, name, opts, size, 1)
+        desc = corrupt.corrupt(base, img, r, directed=[(corrupt.op_orphan_file, "file_acl")])
+    elif idx == nd + 4 + 2 * len(corrupt.PAIRS) + 4 + len(corrupt.ORPHAN_VARIANTS) + 6:
+        # the listed known finding (blocks left marked after the repair): thorough-tier case 2009 of seed 1
+        rr = e2v.rng(1, "c02", 2009)
+        name, opts, size = rr.choice(corrupt.IMG_CONFIGS)
+        base = corrupt.build_image(src, WORK, name, opts, size, 1 + (2009 // 200) % 3)
+        desc = corrupt.corrupt(base, img, rr)
     else:
         desc = corrupt.corrupt(base, img, r)
     recipe = {"base": name, "mke2fs": opts, "size": size, "build_seed": 1 + (idx // 200) % 3, "case_index": idx, "operators": desc}
     cons0 = judge_consistency(img)
     jx = journal_crosslinked(img) if cons0 else False
     sh0 = only_shadow(img, cons0)
+    sp0 = only_special_acl(img, cons0)
     rc_n, probs_n, out_n = fsck(src, img, ["-fn"], "n1")
     before = open(img, "rb").read() if False else None
     owners0 = None
@@ -268,7 +304,7 @@ def one_case(src, idx, seed, tier, keep=False):
             ea_cleared = False
     cons2 = judge_consistency(img) if rc_n2 == 0 else "skipped"
     sh2 = only_shadow(img, cons2)
-    res = {"ea_cleared": ea_cleared, "shadow0": sh0, "shadow2": sh2, "recipe": recipe, "cons0": cons0, "journal_crosslinked": jx, "rc_n": rc_n, "probs_n": probs_n, "rc_y": rc_y, "probs_y": probs_y,
+    res = {"special0": sp0, "special2": only_special_acl(img, cons2), "ea_cleared": ea_cleared, "shadow0": sh0, "shadow2": sh2, "recipe": recipe, "cons0": cons0, "journal_crosslinked": jx, "rc_n": rc_n, "probs_n": probs_n, "rc_y": rc_y, "probs_y": probs_y,
            "rc_n2": rc_n2, "probs_n2": probs_n2, "cons2": cons2, "out_n": out_n[-400:], "out_n2": out_n2[-600:], "out_y": out_y[-300:]}
     if not keep:
         os.unlink(img)
@@ -372,7 +408,7 @@ def run(res, replay=None):
         if len(res.cov["samples"]) < 3 and c["cons0"]:
             res.sample({"recipe": rec, "independent_reader": c["cons0"][:3], "e2fsck_n_exit": c["rc_n"]})
         if c["rc_n"] == 0 and c["cons0"]:
-            bad.append((rec, c["cons0"], c["out_n"], c.get("shadow0")))
+            bad.append((rec, c["cons0"], c["out_n"], "special" if c.get("special0") else c.get("shadow0")))
         # verdict correspondence: the model's UNCORRECTED bit (from the problem log) must be in the real exit status
         if mexit.strip().isdigit() and int(mexit) & 4 and not (c["rc_n"] & 4) and c["rc_n"] not in (8, 12, -9):
             verdict_bad.append((rec, c["probs_n"][:8], c["rc_n"]))
@@ -384,10 +420,19 @@ def run(res, replay=None):
                        "dirents, checksum-only, noise), checksums re-computed in 70% so the damage is structural; non-trivial = independent reader judges the image inconsistent")
     res.add_obligation("verdict model consistent with every observed exit status", not verdict_bad)
     bad.sort(key=lambda b: 1 if b[3] else 0)
-    for rec, cons, out, shadow in bad[:3]:
+    shown_, unknown_ = set(), 0
+    for rec, cons, out, shadow in bad:
+        if shadow:
+            if shadow in shown_:
+                continue
+            shown_.add(shadow)
+        else:
+            unknown_ += 1
+            if unknown_ > 3:
+                continue
         res.violation("oracle", {"recipe": rec, "independent_reader": cons[:5], "e2fsck_fn_exit": 0, "e2fsck_output_tail": out[-300:],
                                  "note": "e2fsck -fn exits 0 on an image that violates a consistency invariant"},
-                      signature="c02:uninit-group-metadata-bit-clear-on-disk" if shadow else "c02:" + hashlib.sha256(json.dumps(rec["operators"]).encode()).hexdigest()[:12])
+                      signature="c02:special-inode-bad-file-acl" if shadow == "special" else "c02:uninit-group-metadata-bit-clear-on-disk" if shadow else "c02:" + hashlib.sha256(json.dumps(rec["operators"]).encode()).hexdigest()[:12])
     for rec, probs, rc in verdict_bad[:2]:
         res.violation("correspondence", {"recipe": rec, "problem_log": probs, "exit": rc,
                                          "note": "problem log contains an unfixed problem but the exit status lacks 'errors left uncorrected'"},
